@@ -142,13 +142,14 @@ fn dispatch(ctx: &Ctx) -> Outcome {
     if cut > 0 {
         out.floors.push(util::floor(&format!("the workload ran to its end within {} s (otherwise what was observed is reported, and the run is inconclusive)", soft), false, format!("{} shard(s) / loop(s) cut short", cut)));
     }
-    if ["C01", "C03", "C04", "C05", "C06", "C07", "C08", "C09", "C10", "C11", "C12", "C13", "C14", "C15", "C19"].contains(&ctx.prop.as_str()) && out.report.violations.is_empty() {
+    // (the Miri leg interprets a small decoder-only workload: the probes below are not part of it)
+    if !ctx.miri && ["C01", "C03", "C04", "C05", "C06", "C07", "C08", "C09", "C10", "C11", "C12", "C13", "C14", "C15", "C19"].contains(&ctx.prop.as_str()) && out.report.violations.is_empty() {
         let n = out.report.get("thread_exit_probes_ok");
         out.floors.push(util::floor("the group's small workload run from a thread-local destructor while a thread exits, in both orders of first use, equal to the same calls on an ordinary thread", n == 2, n));
         let n = out.report.get("unwinding_probes_ok");
         out.floors.push(util::floor("the same workload run from a destructor while a panic unwinds, and once more right after that panic was caught", n == 2, n));
     }
-    if ["C01", "C03", "C04", "C05", "C06", "C07", "C12", "C13", "C14", "C15"].contains(&ctx.prop.as_str()) && out.report.violations.is_empty() {
+    if !ctx.miri && ["C01", "C03", "C04", "C05", "C06", "C07", "C12", "C13", "C14", "C15"].contains(&ctx.prop.as_str()) && out.report.violations.is_empty() {
         let n = out.report.get("migration_probes_ok");
         out.floors.push(util::floor("objects built on one thread, used on a second and a third, read on a fourth: same results as on one thread", n == 1, n));
     }
